@@ -73,10 +73,11 @@ func init() {
 				c.run("rep", "LMLM", a)
 			}
 			c.run("embed", a)
+			c.run("repvia", a)
 			if isTopLevel(a) {
 				c.run("rtparse", a)
 				// ownership (C12) of what Parse builds from the library's own encoding of an API-built message
-				if j := strings.LastIndex(a, ";!"); j > 0 && (i%2 == 0 || c.thorough()) {
+				if j := strings.LastIndex(a, ";!"); j > 0 {
 					if b := marshalProg(a[:j], a[j+2:]); len(b) >= 8 {
 						c.run("scribble", hx(b), len(b))
 					}
